@@ -99,6 +99,10 @@ class ExpressionTokenTranslator(AbstractTranslator):
         while position < len(items) and items[position] is cls._PERCENT:
             left, position, percent = f'self._normalize_float_number({left} / 100)', position + 1, True
 
+        # `left` may be an open chain of operators of one precedence level (a+b-c, x*y/z, joined texts): operators of the
+        # same level are appended without brackets - python groups them from left to right as Excel does - so a sum of a
+        # few hundred cells does not become a few hundred nested brackets
+        chain = None
         while position < len(items):
             operator = items[position]
             if isinstance(operator, str) or operator is cls._PERCENT:
@@ -114,14 +118,23 @@ class ExpressionTokenTranslator(AbstractTranslator):
             if isinstance(operator, cls._COMPARE_TOKENS):
                 # попытка заставить сравнение работать так, как надо
                 operator = OperatorSubTokenTranslator.translate(operator, excel=None, context=None)
-                left = f'self._compare("{operator}", {left}, {right})'
+                left = f'self._compare("{operator}", {cls._closed(left, chain)}, {right})'
+                chain = None
             elif operator.__class__ is AmpersandToken:
-                left = f'(self._excel_value_to_string({left})+self._excel_value_to_string({right}))'
+                if chain != precedence:
+                    left = f'self._excel_value_to_string({cls._closed(left, chain)})'
+                left, chain = f'{left}+self._excel_value_to_string({right})', precedence
             else:
                 operator = OperatorSubTokenTranslator.translate(operator, excel=None, context=None)
-                left = f'({left}{operator}{right})'
+                if chain != precedence:
+                    left = cls._closed(left, chain)
+                left, chain = f'{left}{operator}{right}', precedence
                 if percent:
-                    left = f'self._normalize_float_number{left}'
+                    left, chain = f'self._normalize_float_number({left})', None
             percent = False
 
-        return left, position
+        return cls._closed(left, chain), position
+
+    @staticmethod
+    def _closed(code: str, chain) -> str:
+        return f'({code})' if chain is not None else code
